@@ -11,13 +11,25 @@ for ID in $IDS; do
   P=$(python3 -c "import json;print(json.load(open('seeded/$ID/meta.json'))['breaks_property'])" 2>/dev/null)
   [ -z "$P" ] && P=${ID:0:3}
   WT=$BASE/$ID
-  git -C /repo worktree add -q --detach $WT HEAD 2>/dev/null || { echo "$ID worktree failed"; continue; }
+  # a seed written against an older tree (meta.json: base_commit) is re-applied to that tree
+  BC=$(python3 -c "import json;print((json.load(open('seeded/$ID/meta.json')).get('base_commit') or 'HEAD').split()[0])" 2>/dev/null)
+  [ -z "$BC" ] && BC=HEAD
+  git -C /repo worktree add -q --detach $WT $BC 2>/dev/null || { echo "$ID worktree failed"; continue; }
   if git -C $WT apply $(pwd)/seeded/$ID/patch.diff 2>/dev/null; then
     VP_REPO=$WT VP_EVIDENCE_DIR=$(pwd)/work/seeded-evidence/reg-$ID ./check $P --no-conform > work/regress/$ID.out 2> work/regress/$ID.err
     rc=$?
     echo "$ID $P rc=$rc violations=$(grep -c '^VIOLATION' work/regress/$ID.out) $(grep -h 'obligations=' work/regress/$ID.err | tail -1 | sed 's/.*\] //')"
   else
-    echo "$ID patch does not apply to the current /repo HEAD"
+    # written against the tree before a later repair touched the same lines: re-apply it to that tree
+    git -C /repo worktree remove --force $WT
+    git -C /repo worktree add -q --detach $WT a977e78 2>/dev/null
+    if git -C $WT apply $(pwd)/seeded/$ID/patch.diff 2>/dev/null; then
+      VP_REPO=$WT VP_EVIDENCE_DIR=$(pwd)/work/seeded-evidence/reg-$ID ./check $P --no-conform > work/regress/$ID.out 2> work/regress/$ID.err
+      rc=$?
+      echo "$ID $P (on a977e78) rc=$rc violations=$(grep -c '^VIOLATION' work/regress/$ID.out) $(grep -h 'obligations=' work/regress/$ID.err | tail -1 | sed 's/.*\] //')"
+    else
+      echo "$ID patch does not apply to /repo HEAD nor to a977e78"
+    fi
   fi
   git -C /repo worktree remove --force $WT
   rm -rf work/seeded-evidence/reg-$ID
